@@ -22,6 +22,7 @@ type RunCfg struct {
 	QuotaValidity  int32   `json:"quota_validity,omitempty"`
 	ThresholdRate  float32 `json:"threshold_rate,omitempty"`
 	OpBudgetNs     int64   `json:"op_budget_ns,omitempty"`
+	DBDelayMaxNs   int64   `json:"db_delay_max_ns,omitempty"` // every stub-DB call takes a seed-derived simulated time up to this
 	SettleNs       int64   `json:"settle_ns,omitempty"`
 	Snapshots      bool    `json:"snapshots,omitempty"` // full state snapshot around every op (sequential runs only)
 	Concurrent     bool    `json:"concurrent,omitempty"`
@@ -39,11 +40,11 @@ type Account struct {
 
 // Container is one used-unit container, described by policy.
 type Container struct {
-	QMI         string `json:"qmi"`                   // ONLINE_CHARGING | OFFLINE_CHARGING | QUOTA_MANAGEMENT_SUSPENDED | ""
-	UsePermille int    `json:"use_permille"`          // used volume = permille of the last grant for (session, rg); -1: Vol is literal
-	Vol         int32  `json:"vol,omitempty"`         // literal total volume when UsePermille < 0
-	SSU         int32  `json:"ssu,omitempty"`         // service specific units
-	NoSeq       bool   `json:"no_seq,omitempty"`      // do not assign a unique local sequence number
+	QMI         string `json:"qmi"`              // ONLINE_CHARGING | OFFLINE_CHARGING | QUOTA_MANAGEMENT_SUSPENDED | ""
+	UsePermille int    `json:"use_permille"`     // used volume = permille of the last grant for (session, rg); -1: Vol is literal
+	Vol         int32  `json:"vol,omitempty"`    // literal total volume when UsePermille < 0
+	SSU         int32  `json:"ssu,omitempty"`    // service specific units
+	NoSeq       bool   `json:"no_seq,omitempty"` // do not assign a unique local sequence number
 }
 
 type Unit struct {
@@ -56,21 +57,21 @@ type Unit struct {
 
 // Op is one step of a task.
 type Op struct {
-	ID       int    `json:"id"`
-	Kind     string `json:"kind"` // create | update | release | recharge | raw | sleep | dbset
-	Supi     string `json:"supi,omitempty"`
-	Sess     string `json:"sess,omitempty"`     // logical session name
-	RefMode  string `json:"ref_mode,omitempty"` // "" bound ref | unknown | foreign:<sess> | literal:<text>
-	Consumer string `json:"consumer,omitempty"`
-	ChargingID int32 `json:"charging_id,omitempty"`
-	Units    []Unit `json:"units,omitempty"`
-	Final    bool   `json:"final,omitempty"`
-	Triggers []Trig `json:"triggers,omitempty"`
-	RG       int32  `json:"rg,omitempty"`     // recharge
-	TopUp    int64  `json:"top_up,omitempty"` // recharge: amount credited in the DB before the PUT
-	NotifyURI string `json:"notify_uri,omitempty"`
-	OneTime  bool   `json:"one_time,omitempty"`
-	NoPDU    bool   `json:"no_pdu,omitempty"`
+	ID         int    `json:"id"`
+	Kind       string `json:"kind"` // create | update | release | recharge | raw | sleep | dbset
+	Supi       string `json:"supi,omitempty"`
+	Sess       string `json:"sess,omitempty"`     // logical session name
+	RefMode    string `json:"ref_mode,omitempty"` // "" bound ref | unknown | foreign:<sess> | literal:<text>
+	Consumer   string `json:"consumer,omitempty"`
+	ChargingID int32  `json:"charging_id,omitempty"`
+	Units      []Unit `json:"units,omitempty"`
+	Final      bool   `json:"final,omitempty"`
+	Triggers   []Trig `json:"triggers,omitempty"`
+	RG         int32  `json:"rg,omitempty"`     // recharge
+	TopUp      int64  `json:"top_up,omitempty"` // recharge: amount credited in the DB before the PUT
+	NotifyURI  string `json:"notify_uri,omitempty"`
+	OneTime    bool   `json:"one_time,omitempty"`
+	NoPDU      bool   `json:"no_pdu,omitempty"`
 	// raw request (C11 probes)
 	Method string          `json:"method,omitempty"`
 	Path   string          `json:"path,omitempty"`
@@ -78,9 +79,9 @@ type Op struct {
 	// sleep
 	SleepNs int64 `json:"sleep_ns,omitempty"`
 	// role of the op for the oracles
-	Role string `json:"role,omitempty"` // "" | probe | followup | epilogue | unfaulted
-	ISN  int32  `json:"isn,omitempty"`  // invocation sequence number (0: harness assigns)
-	D    *DiamOp `json:"d,omitempty"`   // Diameter request (C07 / C08 engines)
+	Role string  `json:"role,omitempty"` // "" | probe | followup | epilogue | unfaulted
+	ISN  int32   `json:"isn,omitempty"`  // invocation sequence number (0: harness assigns)
+	D    *DiamOp `json:"d,omitempty"`    // Diameter request (C07 / C08 engines)
 }
 
 type Trig struct {
